@@ -1,4 +1,5 @@
 import Frp.Model.Pool
+import Frp.Model.SendPath
 import Frp.Lemmas.Pool
 /-
   C11 — Work connections: one user each, right proxy, bounded pool, never orphaned.
@@ -86,6 +87,31 @@ def vlAcceptOk (impl : String) : Bool :=
 /-- a visitor connection that NewConn accepted while the accept loop was free: bridged under the right
     proxy name, or closed -/
 def visitorOk (impl : String) : Bool := impl != "stuck" && impl != "nostall" && impl != "B:N"
+
+/-- census after the end of a session, `w=<closed>/<open>;u=<closed>/<open>;b=<bridged>`, over ALL its user
+    connections and its un-started work connections: no user connection is open without a peer, no work
+    connection is parked -/
+def censusUsersOk (impl : String) : Bool :=
+  match impl.splitOn ";" with
+  | [w, u, b] =>
+    (match (dropS w 2).splitOn "/", (dropS u 2).splitOn "/" with
+     | [_, wo], [_, uo] => w.startsWith "w=" && u.startsWith "u=" && b.startsWith "b=" && wo == "0" && uo == "0"
+     | _, _ => false)
+  | _ => false
+
+/-- `P:<n>` after offers: the pool never holds more than its capacity -/
+def sendPooledOk (cap : Nat) (impl : String) : Bool :=
+  match (dropS impl 2).toNat? with
+  | some n => impl.startsWith "P:" && n ≤ cap
+  | none => false
+
+/-- `S:<k>` handlers parked in Send: only behind a client that does not read, and … (nothing more: how many
+    park is the model's prediction, compared as a result) -/
+def sendParkedOk (_cap : Nat) (stalled : Bool) (impl : String) : Bool :=
+  stalled || impl == "S:0"
+
+/-- the client reads again: the queue drains and every parked handler has left Send -/
+def sendResumedOk (impl : String) : Bool := impl.startsWith "S:0;" && !(impl.endsWith "nosync")
 
 /-- frps survived the inner ops -/
 def childOk (impl : String) : Bool := !(impl.endsWith "crash") && !(impl.endsWith "hang")
@@ -971,6 +997,369 @@ theorem group_worker_holds_one {s : GroupAccept.St} (h : GroupAccept.Reach s) (c
   have b := inv.held_iff c' h2
   rw [a] at b; simpa using b
 
+/-! ## 8. the control-message send path: a handler parked in `Dispatcher.Send`
+
+  `Frp.Pool`'s label `request u ok` is GetWorkConn's `msgDispatcher.Send(&msg.ReqWorkConn{})`.  `Frp.SendPath`
+  splits it: the handler enters `Send` (`call u`), and leaves it through the send arm (`enq u`: Pool's
+  `request u true`) or through the `doneCh` arm (`wake u`: Pool's `request u false`).  While the client does
+  not read its control connection and the queue is full the handler is parked — for as long as the session
+  lives.  The clause proved here: the end of the session (`done`) releases every parked handler, for all
+  interleavings of senders, send loop, write, read failure and `conn.Close()`; Pool's `request u false` then
+  closes the user connection, `request u true` leads to the closed pool or the timeout. -/
+
+namespace SP
+
+structure Inv (s : SendPath.St) : Prop where
+  q_le : s.q.length ≤ s.cap
+  eof_done : ∀ u, s.p.get u = some .eof → s.done = true
+  exit_done : s.loopExit = true → s.done = true
+  exit_idle : s.loopExit = true → s.wr = none
+
+theorem inv_init (cap : Nat) : Inv (SendPath.init cap) := by
+  refine ⟨by simp [SendPath.init], ?_, ?_, ?_⟩
+  · intro u h; simp [SendPath.init, Tbl.get] at h
+  · intro h; simp [SendPath.init] at h
+  · intro _; rfl
+
+theorem inv_step {plain : Bool} {s s' : SendPath.St} {l : SendPath.Label} (h : Inv s)
+    (hs : SendPath.step plain s l = some s') : Inv s' := by
+  obtain ⟨h1, h2, h3, h4⟩ := h
+  cases l with
+  | call u =>
+    simp only [SendPath.step] at hs
+    split at hs
+    · cases hs
+    · split at hs
+      · rename_i hpd
+        cases hs
+        refine ⟨h1, ?_, h3, h4⟩
+        intro u' hu'
+        simp only [Tbl.get_set] at hu'
+        split at hu'
+        · exact hpd.2
+        · exact h2 u' hu'
+      · cases hs
+        refine ⟨h1, ?_, h3, h4⟩
+        intro u' hu'
+        simp only [Tbl.get_set] at hu'
+        split at hu'
+        · cases hu'
+        · exact h2 u' hu'
+  | enq u =>
+    simp only [SendPath.step] at hs
+    split at hs
+    · rename_i hc
+      cases hs
+      refine ⟨?_, ?_, h3, h4⟩
+      · simp only [List.length_append, List.length_cons, List.length_nil]; omega
+      · intro u' hu'
+        simp only [Tbl.get_set] at hu'
+        split at hu'
+        · cases hu'
+        · exact h2 u' hu'
+    · cases hs
+  | wake u =>
+    simp only [SendPath.step] at hs
+    split at hs
+    · rename_i hc
+      cases hs
+      refine ⟨h1, ?_, h3, h4⟩
+      intro u' hu'
+      simp only [Tbl.get_set] at hu'
+      split at hu'
+      · exact hc.2.2
+      · exact h2 u' hu'
+    · cases hs
+  | loopRecv =>
+    simp only [SendPath.step] at hs
+    split at hs
+    · rename_i he _ hq
+      cases hs
+      refine ⟨?_, h2, h3, ?_⟩
+      · simp only [hq, List.length_cons] at h1; simp only; omega
+      · intro hx; simp only at hx; rw [he] at hx; cases hx
+    · cases hs
+  | loopDone =>
+    simp only [SendPath.step] at hs
+    split at hs
+    · rename_i hc
+      cases hs
+      exact ⟨h1, h2, fun _ => hc.2.2, fun _ => hc.2.1⟩
+    · cases hs
+  | written ok =>
+    simp only [SendPath.step] at hs
+    split at hs
+    · rename_i m hw
+      have hne : s.loopExit ≠ true := by
+        intro he; have := h4 he; rw [this] at hw; cases hw
+      split at hs
+      · split at hs
+        · cases hs
+        · cases hs; exact ⟨h1, h2, h3, fun _ => rfl⟩
+      · split at hs
+        · cases hs; exact ⟨h1, h2, h3, fun _ => rfl⟩
+        · cases hs
+    · cases hs
+  | readFail =>
+    simp only [SendPath.step] at hs
+    split at hs
+    · cases hs
+    · cases hs; exact ⟨h1, fun _ _ => rfl, fun _ => rfl, h4⟩
+  | connClose =>
+    simp only [SendPath.step] at hs
+    split at hs
+    · cases hs
+    · cases hs; exact ⟨h1, h2, h3, h4⟩
+
+theorem inv_reach {plain : Bool} {cap : Nat} {s : SendPath.St} (h : SendPath.Reach plain cap s) : Inv s := by
+  induction h with
+  | init => exact inv_init cap
+  | step _ hs ih => exact inv_step ih hs
+
+theorem reach_run {plain : Bool} {cap : Nat} {s s' : SendPath.St} (h : SendPath.Reach plain cap s)
+    (ls : List SendPath.Label) (hr : SendPath.run plain s ls = some s') : SendPath.Reach plain cap s' := by
+  induction ls generalizing s with
+  | nil => simp [SendPath.run] at hr; subst hr; exact h
+  | cons l ls ih =>
+    simp only [SendPath.run] at hr
+    split at hr
+    · cases hr
+    · rename_i s1 hs
+      exact ih (SendPath.Reach.step h hs) hr
+
+end SP
+
+/-- the send queue never holds more than its capacity (100) -/
+theorem send_queue_bounded {plain : Bool} {cap : Nat} {s : SendPath.St} (h : SendPath.Reach plain cap s) :
+    s.q.length ≤ s.cap := (SP.inv_reach h).q_le
+
+/-- `Send` returns io.EOF only once `doneCh` is closed … -/
+theorem send_eof_only_after_done {plain : Bool} {cap : Nat} {s : SendPath.St} (h : SendPath.Reach plain cap s)
+    (u : Nat) (hu : s.p.get u = some .eof) : s.done = true := (SP.inv_reach h).eof_done u hu
+
+/-- … which is the guard of Pool's `request u false`; that label closes the user connection at once
+    (GetWorkConn: "control is already closed" ⇒ handleUserTCPConnection returns, deferred `userConn.Close()`) -/
+theorem send_eof_closes_user (fx : Fix) (s : St) (u : Nat) (r : St × Res)
+    (hs : step fx s (.request u false) = some r) : s.dispDone = true ∧ r.1.u.get u = some .closed := by
+  simp only [step] at hs
+  split at hs
+  · cases hs
+  · split at hs
+    · split at hs
+      · cases hs
+      · split at hs
+        · rename_i h; cases h
+        · split at hs
+          · rename_i hd
+            cases hs
+            exact ⟨hd, by simp [Tbl.get_set]⟩
+          · cases hs
+    · cases hs
+
+/-- a handler inside `Send` is blocked (neither arm ready) exactly when the queue is full and the session lives -/
+theorem parked_blocked_iff (s : SendPath.St) (u : Nat) (hu : s.p.get u = some .parked) :
+    (SendPath.step false s (.enq u) = none ∧ SendPath.step false s (.wake u) = none) ↔
+    (s.cap ≤ s.q.length ∧ s.done = false) := by
+  simp only [SendPath.step, hu, true_and]
+  constructor
+  · intro ⟨h1, h2⟩
+    constructor
+    · by_cases h : s.q.length < s.cap
+      · simp [h] at h1
+      · omega
+    · cases hd : s.done with
+      | false => rfl
+      | true => simp [hd] at h2
+  · intro ⟨h1, h2⟩
+    have : ¬ s.q.length < s.cap := by omega
+    simp [this, h2]
+
+/-- THE RELEASE: once the session has ended (`doneCh` closed) the `doneCh` arm of every parked handler is ready,
+    however full the queue is and whatever the send loop and the connection are doing … -/
+theorem blocked_sender_released_on_end (s : SendPath.St) (u : Nat) (hu : s.p.get u = some .parked)
+    (hd : s.done = true) :
+    SendPath.step false s (.wake u) = some { s with p := s.p.set u .eof } := by
+  simp [SendPath.step, hu, hd]
+
+/-- … and nothing another goroutine does takes the release away: after any other label the session is still
+    ended and the handler is still parked with that arm ready (so under any fair schedule it leaves `Send`) -/
+theorem release_persistent {s s' : SendPath.St} {l : SendPath.Label} (u : Nat)
+    (hs : SendPath.step false s l = some s') (hu : s.p.get u = some .parked) (hd : s.done = true) :
+    s'.done = true ∧ (s'.p.get u = some .parked ∨ l = .enq u ∨ l = .wake u) := by
+  cases l with
+  | call u' =>
+    simp only [SendPath.step] at hs
+    split at hs
+    · cases hs
+    · rename_i hn
+      have hne : u ≠ u' := by
+        intro e; subst e; simp [hu] at hn
+      split at hs <;> (cases hs; exact ⟨hd, Or.inl (by simp [Tbl.get_set, hne, hu])⟩)
+  | enq u' =>
+    simp only [SendPath.step] at hs
+    split at hs
+    · cases hs
+      by_cases e : u = u'
+      · subst e; exact ⟨hd, Or.inr (Or.inl rfl)⟩
+      · exact ⟨hd, Or.inl (by simp [Tbl.get_set, e, hu])⟩
+    · cases hs
+  | wake u' =>
+    simp only [SendPath.step] at hs
+    split at hs
+    · cases hs
+      by_cases e : u = u'
+      · subst e; exact ⟨hd, Or.inr (Or.inr rfl)⟩
+      · exact ⟨hd, Or.inl (by simp [Tbl.get_set, e, hu])⟩
+    · cases hs
+  | loopRecv =>
+    simp only [SendPath.step] at hs
+    split at hs
+    · cases hs; exact ⟨hd, Or.inl hu⟩
+    · cases hs
+  | loopDone =>
+    simp only [SendPath.step] at hs
+    split at hs
+    · cases hs; exact ⟨hd, Or.inl hu⟩
+    · cases hs
+  | written ok =>
+    simp only [SendPath.step] at hs
+    split at hs
+    · split at hs
+      · split at hs
+        · cases hs
+        · cases hs; exact ⟨hd, Or.inl hu⟩
+      · split at hs
+        · cases hs; exact ⟨hd, Or.inl hu⟩
+        · cases hs
+    · cases hs
+  | readFail =>
+    simp only [SendPath.step] at hs
+    split at hs
+    · cases hs
+    · cases hs <;> exact ⟨rfl, Or.inl hu⟩
+  | connClose =>
+    simp only [SendPath.step] at hs
+    split at hs
+    · cases hs
+    · cases hs; exact ⟨hd, Or.inl hu⟩
+
+/-- the clause, as a property of a `Send` implementation: in every reachable state of an ended session every
+    handler parked in `Send` can leave it by a step of its own -/
+def ReleasedOnEnd (plain : Bool) : Prop :=
+  ∀ (cap : Nat) (s : SendPath.St) (u : Nat), SendPath.Reach plain cap s → s.done = true →
+    s.p.get u = some .parked → ∃ l s', SendPath.step plain s l = some s' ∧ s'.p.get u ≠ some .parked
+
+/-- it holds for the `select` of the tree … -/
+theorem releasedOnEnd_select : ReleasedOnEnd false := by
+  intro cap s u _ hd hu
+  refine ⟨.wake u, _, blocked_sender_released_on_end s u hu hd, ?_⟩
+  simp [Tbl.get_set]
+
+/-- … so an ended session in which no `doneCh` arm is left to fire has nobody parked in `Send` -/
+theorem ended_quiescent_none_parked (s : SendPath.St) (hd : s.done = true)
+    (hq : ∀ u, SendPath.step false s (.wake u) = none) (u : Nat) : s.p.get u ≠ some .parked := by
+  intro hu
+  have := blocked_sender_released_on_end s u hu hd
+  rw [hq u] at this; cases this
+
+/-- the variant with a plain `d.sendCh <- m` after a non-blocking `doneCh` check: a handler parked on a full
+    queue whose send loop has returned stays parked under EVERY label … -/
+def Stranded (s : SendPath.St) (u : Nat) : Prop :=
+  s.loopExit = true ∧ s.cap ≤ s.q.length ∧ s.p.get u = some .parked
+
+theorem plainSend_strand_stable {s s' : SendPath.St} {l : SendPath.Label} {u : Nat}
+    (hs : SendPath.step true s l = some s') (h : Stranded s u) : Stranded s' u := by
+  obtain ⟨he, hq, hu⟩ := h
+  cases l with
+  | call u' =>
+    simp only [SendPath.step] at hs
+    split at hs
+    · cases hs
+    · rename_i hn
+      have hne : u ≠ u' := by
+        intro e; subst e; simp [hu] at hn
+      split at hs <;> (cases hs; exact ⟨he, hq, by simp [Tbl.get_set, hne, hu]⟩)
+  | enq u' =>
+    simp only [SendPath.step] at hs
+    split at hs
+    · rename_i hc; omega
+    · cases hs
+  | wake u' => simp [SendPath.step] at hs
+  | loopRecv => simp [SendPath.step, he] at hs
+  | loopDone => simp [SendPath.step, he] at hs
+  | written ok =>
+    simp only [SendPath.step] at hs
+    split at hs
+    · split at hs
+      · split at hs
+        · cases hs
+        · cases hs; exact ⟨he, hq, hu⟩
+      · split at hs
+        · cases hs; exact ⟨he, hq, hu⟩
+        · cases hs
+    · cases hs
+  | readFail =>
+    simp only [SendPath.step] at hs
+    split at hs
+    · cases hs
+    · cases hs; exact ⟨he, hq, hu⟩
+  | connClose =>
+    simp only [SendPath.step] at hs
+    split at hs
+    · cases hs
+    · cases hs; exact ⟨he, hq, hu⟩
+
+/-- … hence for ever: no continuation of the run releases it (GetWorkConn never returns, the deferred
+    `userConn.Close()` never runs: the user connection stays open without a peer) -/
+theorem plainSend_stranded_forever {s s' : SendPath.St} {u : Nat} (ls : List SendPath.Label)
+    (hr : SendPath.run true s ls = some s') (h : Stranded s u) : Stranded s' u := by
+  induction ls generalizing s with
+  | nil => simp [SendPath.run] at hr; subst hr; exact h
+  | cons l ls ih =>
+    simp only [SendPath.run] at hr
+    split at hr
+    · cases hr
+    · rename_i s1 hs
+      exact ih hr (plainSend_strand_stable hs h)
+
+/-- the schedule (queue of 2 for brevity; `plainSend_strand_witness_100` below is the same with 100): the client
+    stops reading (no `written true`), senders 0‥2 fill writer + queue, sender 3 parks, the read fails, the worker
+    closes the connection, the pending write fails, the send loop sees `doneCh` and returns -/
+def strandTrace : List SendPath.Label :=
+  [.call 0, .enq 0, .loopRecv, .call 1, .enq 1, .call 2, .enq 2, .call 3, .readFail, .connClose, .written false, .loopDone]
+
+theorem plainSend_strand_witness :
+    (SendPath.run true (SendPath.init 2) strandTrace).map
+      (fun s => (s.done, s.loopExit, s.q.length, s.p.get 3)) = some (true, true, 2, some .parked) := by decide
+
+/-- the same schedule for a queue of `n`, with senders 0‥n filling writer + queue and sender n+1 parked -/
+def strandTraceN (n : Nat) : List SendPath.Label :=
+  [.call 0, .enq 0, .loopRecv] ++ (List.range n).flatMap (fun i => [.call (i + 1), .enq (i + 1)]) ++
+  [.call (n + 1), .readFail, .connClose, .written false, .loopDone]
+
+theorem plainSend_strand_witness_100 :
+    (SendPath.run true (SendPath.init 100) (strandTraceN 100)).map
+      (fun s => (s.done, s.loopExit, s.q.length, s.p.get 101)) = some (true, true, 100, some .parked) := by
+  decide +kernel
+
+/-- `ReleasedOnEnd` is false for the plain send -/
+theorem releasedOnEnd_plainSend_false : ¬ ReleasedOnEnd true := by
+  intro h
+  have hw := plainSend_strand_witness
+  cases hr : SendPath.run true (SendPath.init 2) strandTrace with
+  | none => rw [hr] at hw; cases hw
+  | some s =>
+    rw [hr] at hw
+    simp only [Option.map_some, Option.some.injEq, Prod.mk.injEq] at hw
+    obtain ⟨hd, he, hq, hu⟩ := hw
+    have hreach := SP.reach_run (SendPath.Reach.init (plain := true) (cap := 2)) strandTrace hr
+    have hcap : s.cap = 2 := by
+      have : (SendPath.run true (SendPath.init 2) strandTrace).map (·.cap) = some 2 := by decide
+      rw [hr] at this; simpa using this
+    obtain ⟨l, s', hs, hne⟩ := h 2 s 3 hreach hd hu
+    have := plainSend_strand_stable hs ⟨he, by omega, hu⟩
+    exact hne this.2.2
+
 /-! ## non-vacuity -/
 
 example : (GroupAccept.run {} [.listen, .conn 1, .conn 2, .conn 3, .workerAccept, .recv, .workerAccept, .leave]).map
@@ -998,6 +1387,14 @@ example : (run pinned (init 0 1) [.regProxy 0, .accept 8, .request 8 true, .tick
 example : (run repaired (init 1 1) limboTrace).map (fun s => s.w.get 0) = some (some .closed) := by decide
 example : (Handoff.run repaired {} handoffLimboTrace).map (fun s => s.c.get 0) = some (some .closed) := by decide
 example : advance (newPoolCount 7 5) = 5 ∧ advance (newPoolCount (-3) 5) = 0 ∧ capOf (newPoolCount (-3) 5) = 7 := by decide
+
+/-- the schedule of `plainSend_strand_witness` on the tree's `select`: sender 3 is parked on the full queue of the
+    ended session and its `doneCh` arm releases it -/
+example : (SendPath.run false (SendPath.init 2) (strandTrace ++ [.wake 3])).map (fun s => s.p.get 3) = some (some .eof) := by decide
+example : (SendPath.run false (SendPath.init 2) strandTrace).map (fun s => (SendPath.parkedOf s, s.q, s.wire)) = some ([3], [1, 2], []) := by decide
+/-- a client that reads: everything is written, nobody parks -/
+example : (SendPath.run false (SendPath.init 2) [.call 0, .enq 0, .loopRecv, .written true, .call 1, .enq 1, .loopRecv, .written true]).map
+    (fun s => (SendPath.parkedOf s, s.wire)) = some ([], [0, 1]) := by decide
 
 end C11
 end Frp
